@@ -113,6 +113,8 @@ type Ctx struct {
 	Axioms map[string][]*Term // function symbol -> axioms included when the symbol is used
 	// SkipQuantAxioms drops quantified axioms from scripts (satisfiability checks of vacuity guards).
 	SkipQuantAxioms bool
+	// OpaqueExt: opaque "at" function symbol -> its extent function symbol (frame instances).
+	OpaqueExt map[string]string
 	fresh  map[string]int
 }
 
@@ -821,6 +823,15 @@ func (c *Ctx) Select(a, i *Term) *Term {
 	if a.Op == "constarr" {
 		return a.Args[0]
 	}
+	// Eager read-over-write: reads are pushed down to the base arrays so that the terms
+	// E-matching needs (select base idx) exist syntactically instead of appearing only
+	// inside the solver's array theory.
+	if a.Op == "store" {
+		return c.Ite(c.Eq(a.Args[1], i), a.Args[2], c.Select(a.Args[0], i))
+	}
+	if a.Op == "ite" {
+		return c.Ite(a.Args[0], c.Select(a.Args[1], i), c.Select(a.Args[2], i))
+	}
 	return c.mk("select", a.Sort.Elem, a, i)
 }
 
@@ -1264,10 +1275,12 @@ func (p *printer) render(t *Term, sub func(*Term) string) string {
 				for i, pt := range t.Pats {
 					ps[i] = sub(pt)
 				}
-				body = fmt.Sprintf("(! %s :pattern (%s))", body, strings.Join(ps, " "))
+				body = fmt.Sprintf("(! %s :pattern (%s) :qid q%d)", body, strings.Join(ps, " "), t.ID)
 			} else {
-				body = fmt.Sprintf("(! %s :pattern %s)", body, strings.Join(ps, " :pattern "))
+				body = fmt.Sprintf("(! %s :pattern %s :qid q%d)", body, strings.Join(ps, " :pattern "), t.ID)
 			}
+		} else {
+			body = fmt.Sprintf("(! %s :qid q%d)", body, t.ID)
 		}
 		return fmt.Sprintf("(%s (%s) %s)", t.Op, strings.Join(vs, " "), body)
 	}
